@@ -242,6 +242,11 @@ func main() {
 			if v, ok := allowed[path]; ok {
 				return v
 			}
+			for k, v := range allowed {
+				if strings.HasSuffix(k, "/...") && v && strings.HasPrefix(path, k[:len(k)-3]) {
+					return true
+				}
+			}
 			return strings.HasPrefix(path, "Havoc/")
 		}
 		i.sched = &scheduler{i: i, maxSwitches: *switches}
